@@ -32,7 +32,7 @@ FILES = {
 }
 
 SUBS = [
-    (r">=", ">"), (r"(?<![-=<>])>(?![=>])", ">="), (r"<=", "<"), (r"(?<![<=])<(?![=<])", "<="),
+    (r"(?<![>])>=", ">"), (r"(?<![-=<>])>(?![=>])", ">="), (r"(?<![<])<=", "<"), (r"(?<![<=])<(?![=<])", "<="),
     (r"==", "!="), (r"!=", "=="), (r"&&", "||"), (r"\|\|", "&&"),
     (r"\+ 1\b", "+ 0"), (r"- 1\b", "- 0"), (r"\+= 1\b", "+= 2"), (r"-= 1\b", "-= 0"),
     (r"\btrue\b", "false"), (r"\bfalse\b", "true"),
@@ -48,8 +48,19 @@ DELETE = re.compile(r"^\s*(self\.(detach|attach|cb|tinylfu\.\w+|\w+\.purge|\w+\.
 
 
 def sh(cmd, cwd, timeout=900):
-    p = subprocess.run(cmd, cwd=cwd, stdout=subprocess.PIPE, stderr=subprocess.STDOUT, env=ENV, timeout=timeout, shell=isinstance(cmd, str))
-    return p.returncode, p.stdout.decode("utf-8", "replace")
+    import signal
+    p = subprocess.Popen(cmd, cwd=cwd, stdout=subprocess.PIPE, stderr=subprocess.STDOUT, env=ENV, shell=isinstance(cmd, str),
+                         start_new_session=True)
+    try:
+        out, _ = p.communicate(timeout=timeout)
+        return p.returncode, out.decode("utf-8", "replace")
+    except subprocess.TimeoutExpired:
+        try:
+            os.killpg(p.pid, signal.SIGKILL)
+        except Exception:
+            pass
+        p.communicate()
+        return -9, "TIMEOUT"
 
 
 def code_lines(path):
@@ -133,7 +144,7 @@ def main():
         if "error" in out:
             stats["nocompile"] += 1
             continue
-        rc, out = sh("cargo test --lib --offline 2>&1 | grep 'test result' | head -1", REPO)
+        rc, out = sh("cargo test --lib --offline 2>&1 | grep 'test result' | head -1", REPO, timeout=240)
         if "73 passed" not in out:
             stats["suite_kills"] += 1
             continue
